@@ -895,7 +895,11 @@ func parseMovementValue(p *Parser, allowMultiple bool, closingToken token.Type) 
 	for p.curToken.Type != closingToken {
 		if p.curToken.Type == token.PORYSWITCH {
 			poryswitchCommands, err := p.parsePoryswitchListStatement(func(p *Parser, allowMultiple bool) ([]token.Token, error) {
-				return parseMovementValue(p, allowMultiple, closingToken)
+				if allowMultiple {
+					// A brace-delimited case ends at its own closing brace.
+					return parseMovementValue(p, true, token.RBRACE)
+				}
+				return parseMovementValue(p, false, closingToken)
 			})
 			if err != nil {
 				return nil, err
